@@ -189,7 +189,9 @@ class BoundConstraints:
         if self.is_feasible:
             return np.array([0])
         else:
-            return self.pcs.violation(x)
+            # The lower and upper bounds are separate constraints: when they
+            # are inconsistent, their violations must not be added up.
+            return np.maximum(np.maximum(self.xl - x, x - self.xu), 0.0)
 
     def project(self, x):
         """
